@@ -29,6 +29,10 @@ void DataArray::ioRead(DataType dtype, void *data, const NDSize &count, const ND
     boost::optional<double> opt_origin = expansionOrigin();
 
     if (poly.size() || opt_origin) {
+        if (!(data_type_is_numeric(dtype) || dtype == DataType::Bool)) {
+            // the calibrated values are doubles: a buffer of strings must not be used as a buffer of doubles
+            throw std::invalid_argument("DataArray: calibrated data can only be read as a numeric type");
+        }
         size_t data_esize = data_type_to_size(dtype);
         size_t nelms = check::fits_in_size_t(count.nelms(),
 			"Cannot apply polynom or origin transform. Buffer needed exceeds memory.");
